@@ -18,6 +18,7 @@ type W struct {
 	Prop     string
 	Scenario string
 	RunIdx   int
+	ScenOrd  int // this is the ScenOrd-th run of its scenario
 	Seed     uint64
 	addrN    int
 	Shape    map[string]interface{} // decoded scenario shape, for evidence
